@@ -878,10 +878,12 @@ impl<E: Effect> Executor<E> {
         self.queue.retain(|&pid| pid != id);
     }
 
+    /// Wake a process parked in a select so that it re-evaluates its sources. A process parked
+    /// on a spawn is left alone: it resumes only through `notify_spawn`, and running it before
+    /// that would re-execute the Spawn instruction on operands that are already popped (a late
+    /// "not finished yet" await answer can arrive after its select completed by other means).
     pub fn mark_active(&mut self, id: ProcessId) {
-        let was_spawning = self.spawning.remove(&id);
-        let was_selecting = self.selecting.remove(&id);
-        if was_spawning || was_selecting {
+        if self.selecting.remove(&id) {
             self.queue.push_back(id);
         }
     }
